@@ -16,6 +16,7 @@ import (
 	"fmt"
 	"net"
 	"os"
+	"runtime"
 	"sort"
 	"strings"
 	"sync"
@@ -971,6 +972,79 @@ func raceTerm(online, kick bool, pool []poolEntry, pre, logins []int, results []
 		lib.ListOf(results, func(r result) string { return r.resCoq() }), final.resCoq())
 }
 
+// runBurstHunt: up to maxRounds registration bursts on one proxy. In every round all 16 goroutines,
+// lined up by a spin barrier, call registerConnection for 16 player objects that collide on names / UUIDs;
+// then lookups; a cheap Go check looks for more than one winner per lower-case name or UUID or a wrong
+// count. The first anomalous round (or else the last round) is returned as a history for the Coq judge;
+// between rounds everybody unregisters so each round starts from the empty registry.
+func runBurstHunt(online bool, pool []poolEntry, lookups []op, maxRounds int) (hist []callRec, round int, hung bool) {
+	e := newEnv(online, false, pool)
+	defer e.dispose()
+	n := len(pool)
+	for round = 0; round < maxRounds; round++ {
+		var clock atomic.Int64
+		recs := make([]callRec, n)
+		var ready atomic.Int32
+		var wg sync.WaitGroup
+		for g := 0; g < n; g++ {
+			wg.Add(1)
+			go func(g int) {
+				defer wg.Done()
+				ready.Add(1)
+				for spins := 1; int(ready.Load()) < n; spins++ {
+					if spins%2000 == 0 {
+						runtime.Gosched()
+					}
+				}
+				o := op{K: oReg, H: g}
+				inv := clock.Add(1)
+				r := e.exec(o)
+				res := clock.Add(1)
+				recs[g] = callRec{O: o, R: r, Inv: inv, Res: res}
+			}(g)
+		}
+		done := make(chan struct{})
+		go func() { wg.Wait(); close(done) }()
+		if !e.waitAll(done, true) {
+			e.leaked = true
+			return nil, round, true
+		}
+		hist = append(recs[:0:0], recs...)
+		for _, o := range lookups {
+			inv := clock.Add(1)
+			r := e.exec(o)
+			res := clock.Add(1)
+			hist = append(hist, callRec{O: o, R: r, Inv: inv, Res: res})
+		}
+		// cheap anomaly check
+		names, ids, winners := map[string]int{}, map[int]int{}, 0
+		for g := 0; g < n; g++ {
+			if recs[g].R.B {
+				winners++
+				names[strings.ToLower(pool[g].Name)]++
+				ids[pool[g].ID]++
+			}
+		}
+		bad := e.p.PlayerCount() != winners
+		for _, c := range names {
+			bad = bad || c > 1
+		}
+		for _, c := range ids {
+			bad = bad || c > 1
+		}
+		if bad {
+			return hist, round, false
+		}
+		for g := 0; g < n; g++ {
+			proxy.VerifC11Unregister(e.p, e.hs[g].player.Load())
+		}
+		if e.p.PlayerCount() != 0 {
+			return hist, round, false
+		}
+	}
+	return hist, round - 1, false
+}
+
 // ---------- kick-existing: several sessions of one UUID ----------
 
 // login runs the login of participant h: the real flow (Activated) for connection handles, a bare
@@ -1126,8 +1200,9 @@ func kickLogText(log []kev) []string {
 // ---------- main ----------
 
 type job struct {
-	run  func()
-	emit func()
+	run    func()
+	emit   func()
+	serial bool // runs alone after the worker pool (needs the cores for itself)
 }
 
 func main() {
@@ -1135,7 +1210,7 @@ func main() {
 	rng := lib.NewRng(f.Seed)
 	out := lib.NewOut("C11", f)
 	out.Imports = "From Verif Require Import Base.Lin Model.PlayerRegistry.\n"
-	out.Rule = "sequential histories: 24-40 calls (canRegister/register/unregister/Disconnect/login via authSessionHandler.Activated/lookups) over a pool of 3-7 player objects sharing 1-3 base names in random case spellings and 1-3 UUIDs, offline and online, kick-existing on and off, a full lookup snapshot after every mutating call; concurrent histories: 16 goroutines x 3-6 barrier rounds of atomic registry calls, linearization searched in Go and validated in Coq; races: 2 logins (same name/UUID or not) started at once through Activated, optionally against a pre-registered player, outcome must be produced by some schedule of the model's login threads; kick-existing: 3-4 sessions of one UUID, half with the interleaving forced from inside the kicked session's DisconnectEvent (a further login registers after the victim's teardown and before the kicker re-locks; exact event log), half free-running, judged on the ordering clause over the log and on one-live-session-per-UUID at quiescence. distinct = distinct Coq term; non-trivial = a call was rejected, a player was replaced/kicked, a DisconnectEvent fired, or calls overlapped on the same name or UUID"
+	out.Rule = "sequential histories: 24-40 calls (canRegister/register/unregister/Disconnect/login via authSessionHandler.Activated/lookups) over a pool of 3-7 player objects sharing 1-3 base names in random case spellings and 1-3 UUIDs, offline and online, kick-existing on and off, a full lookup snapshot after every mutating call; concurrent histories: 16 goroutines x 3-6 barrier rounds of atomic registry calls, half of them registration-burst hunts (up to 1500 rounds per history, 10x in thorough, of 16 registerConnection calls lined up by a spin barrier for players colliding on one lower-case name in case variants and/or on 2-3 UUIDs, then lookups; the first round with two winners for one name/UUID or a wrong count — else the last round — is the history judged in Coq), linearization searched in Go and validated in Coq; races: 2 logins (same name/UUID or not) started at once through Activated, optionally against a pre-registered player, outcome must be produced by some schedule of the model's login threads; kick-existing: 3-4 sessions of one UUID, half with the interleaving forced from inside the kicked session's DisconnectEvent (a further login registers after the victim's teardown and before the kicker re-locks; exact event log), half free-running, judged on the ordering clause over the log and on one-live-session-per-UUID at quiescence. distinct = distinct Coq term; non-trivial = a call was rejected, a player was replaced/kicked, a DisconnectEvent fired, or calls overlapped on the same name or UUID"
 
 	var seqJobs, linJobs, raceJobs, kickJobs []job
 	modes := [][2]bool{{false, false}, {true, false}, {true, true}, {false, true}}
@@ -1188,12 +1263,45 @@ func main() {
 			}
 		}
 		rounds := genLinRounds(r, pool, r.Range(3, 6), allowFail)
+		burst := i%2 == 1
+		var burstLookups []op
+		burstRound := 0
+		if burst {
+			// registration bursts: all 16 goroutines call registerConnection at once for 16 different player
+			// objects that collide on the lower-case name (case variants of one name) and/or on few UUIDs;
+			// then lookups, then everybody unregisters, then a second burst. Exactly one registration per
+			// name / UUID may succeed, whatever the interleaving.
+			flavour := r.Intn(3)
+			base := r.PickS("Herobrine", "Alice", "Notch_1")
+			pool = nil
+			for k := 0; k < nGoroutines; k++ {
+				pe := poolEntry{Name: caseVariant(r, base), ID: k}
+				switch flavour {
+				case 1: // distinct names, two UUIDs
+					pe = poolEntry{Name: fmt.Sprintf("P%d_x", k), ID: r.Intn(2)}
+				case 2: // two names, three UUIDs
+					pe = poolEntry{Name: caseVariant(r, r.PickS(base, "Bob")), ID: r.Intn(3)}
+				}
+				pool = append(pool, pe)
+			}
+			var lk []op
+			for _, id := range []int{0, 1, 2} {
+				lk = append(lk, op{K: oPlayer, H: id})
+			}
+			lk = append(lk, op{K: oCount}, op{K: oByName, S: caseVariant(r, base)}, op{K: oByName, S: "bob"}, op{K: oByName, S: "P3_X"})
+			burstLookups = lk
+		}
 		var h []callRec
 		var hung, complete bool
 		var order []int
 		linJobs = append(linJobs, job{
+			serial: burst,
 			run: func() {
-				h, hung = runLin(online, pool, rounds)
+				if burst {
+					h, burstRound, hung = runBurstHunt(online, pool, burstLookups, f.Count(1500))
+				} else {
+					h, hung = runLin(online, pool, rounds)
+				}
 				for _, v := range [][2]bool{{false, false}} { // the code as it is now; pre-fix variants are not accepted
 					var ok bool
 					order, ok = searchLin(pool, v[0], v[1], h, hung)
@@ -1208,6 +1316,10 @@ func main() {
 			},
 			emit: func() {
 				tags := []string{"kind=lin", fmt.Sprintf("lin-calls=%d", len(h)/16*16)}
+				if burst {
+					tags = append(tags, "lin-registration-burst")
+					out.Extra(fmt.Sprintf("burst_rounds_job_%d", i), burstRound+1)
+				}
 				if hung {
 					tags = append(tags, "lin-ended-in-hang")
 				}
@@ -1362,6 +1474,11 @@ func main() {
 		}
 		wg.Add(1)
 		sem <- struct{}{}
+		if jobs[i].serial {
+			wg.Done()
+			<-sem
+			continue
+		}
 		go func(j job) {
 			defer wg.Done()
 			j.run()
@@ -1369,6 +1486,11 @@ func main() {
 		}(jobs[i])
 	}
 	wg.Wait()
+	for i := range jobs {
+		if wanted(i) && jobs[i].serial {
+			jobs[i].run()
+		}
+	}
 	for i := range jobs {
 		if wanted(i) {
 			jobs[i].emit()
